@@ -228,6 +228,23 @@ def run_unit(unit, rng, ctx):
     default_settings = f == 1.0 and np.array_equal(tr.states, tr.inner_states)
     res = [0, int(rng.integers(1, 4)), int(rng.integers(4, 12))]
     check_jumps(tr, ctx, f'rand {sys_.kind} T={T} f={f}', default_settings, residences=res, query_order=([res[i] for i in rng.permutation(3)] if rng.integers(2) else None))
+    # the same history with its event table in another row order (chronological instead of grouped by atom,
+    # shuffled; row labels kept): jumps are a property of the history, not of the row order
+    if len(tr.events) >= 2 and unit.get('i', 0) % 2 == 0:
+        from gemdat.transitions import Transitions
+
+        ev = tr.events
+        how = str(rng.choice(['by_time', 'by_time_fresh_labels', 'shuffled']))
+        ev2 = ev.sort_values(['time', 'atom index'], kind='stable') if how != 'shuffled' else ev.sample(frac=1.0, random_state=int(rng.integers(2**31)))
+        if how == 'by_time_fresh_labels':
+            ev2 = ev2.reset_index(drop=True)
+        if how != 'shuffled':
+            tr2 = Transitions(trajectory=tr.trajectory, diff_trajectory=tr.diff_trajectory, sites=tr.sites, events=ev2, states=np.asarray(tr.states).copy(), inner_states=np.asarray(tr.inner_states).copy())
+            for r_ in res:
+                a_, b_ = get_jumps(tr, r_, ctx, 'reference'), get_jumps(tr2, r_, ctx, f'rand {sys_.kind} T={T} f={f} [event table {how}]')
+                if a_ is not None and b_ is not None:
+                    ctx.check(Counter(a_) == Counter(b_), f'rand {sys_.kind} T={T} f={f}: residence={r_}: the jumps of the same history differ when its event table is ordered {how}: only grouped-by-atom {list((Counter(a_) - Counter(b_)).elements())[:3]}, only {how} {list((Counter(b_) - Counter(a_)).elements())[:3]}', {'states': np.asarray(tr.states)[:, :3]})
+            ctx.count(f'event_table_presentation:{how}')
     states = np.asarray(tr.states)
     dj = models.default_jumps(states)
     ctx.count('long_transit_default_jumps', sum(1 for j in dj if j[4] - j[3] > 3))
